@@ -731,5 +731,52 @@ func main() {
 		cmut("c-bid-sig-len", false, func(x *preconfpb.PreConfirmation) { x.Bid.Signature = x.Bid.Signature[:rng.Intn(66)] })
 		cmut("c-nil-digest", false, func(x *preconfpb.PreConfirmation) { x.Digest = nil })
 	}
+	// messages with one digest and different signatures verified at the same time on the one
+	// long-lived signer (a provider's bid streams, a bidder's fan-out): each gets its own verdict
+	for round := 0; round < vh.Count(6, 60); round++ {
+		b, err := s.ConstructSignedBid(g.txHash(), g.amount(true), g.i63(true), g.i63(true), g.i63(true))
+		if err != nil || b.BlockNumber == 0 {
+			continue
+		}
+		ob, err := other.ConstructSignedBid(b.TxHash, b.BidAmount, b.BlockNumber, b.DecayStartTimestamp, b.DecayEndTimestamp)
+		if err != nil {
+			continue
+		}
+		fv := cloneBid(b)
+		fv.Signature[64] = 55 - fv.Signature[64]
+		fr := cloneBid(b)
+		fr.Signature[3] ^= 0x10
+		msgs := []*preconfpb.Bid{b, ob, fv, fr}
+		tags := []string{"own", "other-signer", "p-v-flip", "p-r-bit"}
+		want := make([]Obs, len(msgs))
+		for k, m := range msgs {
+			want[k] = verifyBid(s, m)
+		}
+		wrong := make([]*Obs, len(msgs))
+		var wmu sync.Mutex
+		var wg sync.WaitGroup
+		for w := 0; w < 12; w++ {
+			wg.Add(1)
+			go func(w int) {
+				defer wg.Done()
+				for it := 0; it < 150; it++ {
+					k := (w + it) % len(msgs)
+					if o := verifyBid(s, msgs[k]); o != want[k] {
+						wmu.Lock()
+						wrong[k] = &o
+						wmu.Unlock()
+					}
+				}
+			}(w)
+		}
+		wg.Wait()
+		for k, m := range msgs {
+			o := want[k]
+			if wrong[k] != nil {
+				o = *wrong[k]
+			}
+			out.Emit(In{Tag: "concurrent-same-digest-" + tags[k], Kind: "bid", Bid: toJ(m), Prims: bidPrims(m), Perturbed: k >= 2, BaseAddr: want[0].Addr}, o)
+		}
+	}
 	_ = fmt.Sprint
 }
